@@ -792,30 +792,30 @@ Proof.
 Qed.
 
 (** two within-word automata put into one shape group have identical tables, literal texts
-    and the completion-side compadd table excepted *)
+    excepted *)
 Theorem isomorphic_sound a b :
   isomorphic_to a b = true ->
   t_mlit a = t_mlit b /\ t_mcmd a = t_mcmd b /\ t_mcompadd a = t_mcompadd b /\ t_mstar a = t_mstar b
-  /\ t_maxlevel a = t_maxlevel b /\ t_clit a = t_clit b /\ t_ccmd a = t_ccmd b.
+  /\ t_maxlevel a = t_maxlevel b /\ t_clit a = t_clit b /\ t_ccmd a = t_ccmd b /\ t_ccompadd a = t_ccompadd b.
 Proof.
   unfold isomorphic_to. intros E.
+  apply andb_prop in E. destruct E as [E G8].
   apply andb_prop in E. destruct E as [E G7]. apply andb_prop in E. destruct E as [E G6].
   apply andb_prop in E. destruct E as [E G5]. apply andb_prop in E. destruct E as [E G4].
   apply andb_prop in E. destruct E as [E G3]. apply andb_prop in E. destruct E as [G1 G2].
   apply nested_eqb_eq in G1. apply (option_eqb_eq _ nested_eqb_eq) in G2, G3.
   apply (option_eqb_eq _ (list_eqb_eq _ pairN_eqb_eq)) in G4. apply N.eqb_eq in G5.
-  apply levels_eqb_eq in G6. apply (option_eqb_eq _ levels_eqb_eq) in G7.
+  apply levels_eqb_eq in G6. apply (option_eqb_eq _ levels_eqb_eq) in G7, G8.
   repeat split; assumption.
 Qed.
 
-(** where no completion-side compadd table exists (bash, fish, pwsh: the emitters pass [false]) the
-    shared table set is exactly the member's own *)
-Corollary isomorphic_sound_no_compadd a b :
-  isomorphic_to a b = true -> t_ccompadd a = None -> t_ccompadd b = None ->
+(** the shared table set IS the member's own: only the literal list differs *)
+Corollary isomorphic_sound_full a b :
+  isomorphic_to a b = true ->
   b = mktables (t_literals b) (t_mlit a) (t_mcmd a) (t_mcompadd a) (t_mstar a) (t_maxlevel a)
                (t_clit a) (t_ccmd a) (t_ccompadd a).
 Proof.
-  intros E Ha Hb. destruct (isomorphic_sound _ _ E) as [H1 [H2 [H3 [H4 [H5 [H6 H7]]]]]].
+  intros E. destruct (isomorphic_sound _ _ E) as [H1 [H2 [H3 [H4 [H5 [H6 [H7 H8]]]]]]].
   destruct a, b; cbn in *. congruence.
 Qed.
 
